@@ -324,111 +324,17 @@ def key_views_funnel_only(ctx, chk, R1, S):
     return key_views
 
 
-def run(ctx, host=None):
-    chk = host.sub('C02') if host is not None else Check('C02', ctx)
+def funnel_partition(ctx, chk, R2, rule_id='C02.R2'):
+    """The read funnel partitions the request: index -> loose (not found in index) -> refreshed index (loose probe failed) -> MISSING (still not found).
+    Shared: C02.R2, and C08 (the fallback pass is what makes a long-open handle see what other handles acknowledged)."""
     prog, K, E = ctx.prog, ctx.kinds, ctx.effects
-    R1 = chk.rule('C02.R1', 'every public key view answers through the single read funnel; negative answers come from its MISSING outcome only', 9)
-    R2 = chk.rule('C02.R2', 'funnel partitions the request: index -> loose (not found in index) -> refreshed index (loose probe failed) -> MISSING (still not found)', 6)
-    R3 = chk.rule('C02.R3', 'listing and counts are unions of the two stores: every index row, plus loose files not in the index', 5)
-    R4 = chk.rule('C02.R4', 'closed-world destruction table: every unlink/rename/replace/link/rmtree/DELETE/UPDATE/truncate site has a tabled owner, area and key provenance', 20)
-    R5 = chk.rule('C02.R5', 'init_container refuses to overwrite: both raising tests dominate the first write; rmtree only under clear; caches and sessions reset', 4)
-    R6 = chk.rule('C02.R6', 'maintenance keeps keys: repack stages every row with its own id/hashkey/size; loosen_object re-adds through the loose writer and compares the key', 4)
     S = Summaries(ctx)
     cont = K.container
     funnel = prog.fn(FUNNEL)
-
-    key_views = key_views_funnel_only(ctx, chk, R1, S)
-    # negative answers: NotExistent / False / None derive from the MISSING outcome
-    def calls_to(f, method):
-        return [c for c in _calls_in(f) if isinstance(c.func, ast.Attribute) and c.func.attr == method]
-
-    # (a) single-object views pass skip_if_missing=False and raise NotExistent exactly on the missing marker
-    for vname, inner, marker in (('get_object_stream_and_meta', 'get_objects_stream_and_meta', 'stream'), ('get_object_meta', 'get_objects_meta', 'meta')):
-        f = cont.methods.get(vname)
-        chk.require(f is not None, f'Container.{vname} not found')
-        cs = calls_to(f, inner)
-        chk.require(len(cs) == 1, f'{vname}: expected one call of {inner}')
-        sk = _kwarg(cs[0], 'skip_if_missing', 1)
-        raises = [n for n in walk_local(f.node) if isinstance(n, ast.Raise) and n.exc is not None and 'NotExistent' in norm(n.exc)]
-        okv = isinstance(sk, ast.Constant) and sk.value is False and bool(raises)
-        msg = None
-        if not (isinstance(sk, ast.Constant) and sk.value is False):
-            msg = 'the bulk reader is not asked to report missing keys (skip_if_missing is not the constant False): a missing object would produce no answer instead of NotExistent'
-        elif not raises:
-            msg = 'NotExistent is never raised'
-        else:
-            # the raise must be guarded by a test of the missing marker of the funnel (stream is None / type MISSING)
-            guarded = False
-            for n in walk_local(f.node):
-                if isinstance(n, ast.If):
-                    t = norm(n.test)
-                    in_body = any(r in list(ast.walk(n)) for r in raises)
-                    if ('is None' in t and in_body and any(r in [y for s in n.body for y in ast.walk(s)] for r in raises)) or \
-                            ('MISSING' in t and ((('!=' in t) and any(isinstance(y, ast.Return) for s in n.body for y in ast.walk(s))) or
-                                                 (('==' in t) and any(r in [y for s in n.body for y in ast.walk(s)] for r in raises)))):
-                        guarded = True
-            if not guarded:
-                msg = 'NotExistent is not decided by the funnel\'s missing marker (None stream / ObjectType.MISSING)'
-        if msg:
-            chk.bad(R1, f.qualname, norm(cs[0])[:120], msg, where=f'{f.module.relpath}:{cs[0].lineno}')
-        else:
-            chk.ok(R1, f.qualname, norm(cs[0])[:120], detail='skip_if_missing=False; NotExistent iff the funnel reports the key missing')
-    # (b) has_objects: only existing keys enter the answer set
-    ho = cont.methods.get('has_objects')
-    chk.require(ho is not None, 'Container.has_objects not found')
-    cs = calls_to(ho, 'get_objects_meta') + calls_to(ho, 'get_objects_stream_and_meta') + calls_to(ho, '_get_objects_stream_meta_generator')
-    chk.require(len(cs) == 1, 'has_objects: expected one bulk lookup call')
-    sk = _kwarg(cs[0], 'skip_if_missing', 1)
-    hk = _kwarg(cs[0], 'hashkeys', 0)
-    if isinstance(sk, ast.Constant) and sk.value is True or (sk is None):
-        okh = True
-    else:
-        okh = any('MISSING' in norm(n.test) for n in walk_local(ho.node) if isinstance(n, ast.If))
-    if okh and isinstance(hk, ast.Name) and hk.id in ho.params:
-        chk.ok(R1, ho.qualname, norm(cs[0])[:120], detail='existence = the funnel yields the key as LOOSE/PACKED (missing keys skipped)')
-    else:
-        chk.bad(R1, ho.qualname, norm(cs[0])[:120], 'has_objects would count keys the funnel reports as MISSING as existing (skip_if_missing is not True and the type is not tested), '
-                'or does not look up the requested keys', where=f'{ho.module.relpath}:{cs[0].lineno}')
-    # (c) bulk views forward the caller's skip_if_missing and key list unchanged
-    for vname in ('get_objects_stream_and_meta', 'get_objects_meta', 'get_objects_content'):
-        f = cont.methods.get(vname)
-        chk.require(f is not None, f'Container.{vname} not found')
-        cs = [c for c in _calls_in(f) if isinstance(c.func, ast.Attribute) and c.func.attr in ('_get_objects_stream_meta_generator', 'get_objects_stream_and_meta', 'get_objects_meta')]
-        chk.require(len(cs) == 1, f'{vname}: expected one call into the funnel')
-        sk, hk = _kwarg(cs[0], 'skip_if_missing', 1), _kwarg(cs[0], 'hashkeys', 0)
-        if isinstance(sk, ast.Name) and sk.id == 'skip_if_missing' and isinstance(hk, ast.Name) and hk.id == 'hashkeys':
-            chk.ok(R1, f.qualname, norm(cs[0])[:120], detail='request and skip_if_missing forwarded unchanged', nontrivial=False)
-        else:
-            chk.bad(R1, f.qualname, norm(cs[0])[:120], 'the bulk view does not forward the caller\'s key list / skip_if_missing unchanged to the funnel', where=f'{f.module.relpath}:{cs[0].lineno}')
-    # get_objects_content: every yielded key is stored, value = stream.read() or None for the missing marker
-    goc = cont.methods['get_objects_content']
-    loops = [l for l in _for_loops(goc) if isinstance(l.target, ast.Tuple) and len(l.target.elts) == 3]
-    chk.require(len(loops) == 1, 'get_objects_content: triplet loop not found')
-    lp = loops[0]
-    kname = lp.target.elts[0].id if isinstance(lp.target.elts[0], ast.Name) else None
-    sname = lp.target.elts[1].id if isinstance(lp.target.elts[1], ast.Name) else None
-    okc = True
-    for path in body_paths(lp.body):
-        stores = [s for s in path if isinstance(s, ast.Assign) and isinstance(s.targets[0], ast.Subscript) and norm(s.targets[0].slice) == kname]
-        if len(stores) != 1:
-            okc = False
-            continue
-        v = norm(stores[0].value)
-        tests = [(norm(t[1]), t[2]) for t in path if isinstance(t, tuple)]
-        none_path = any((tx == f'{sname} is None' and pol) or (tx == f'{sname} is not None' and not pol) for tx, pol in tests)
-        if none_path and v != 'None':
-            okc = False
-        if not none_path and v != f'{sname}.read()':
-            okc = False
-    if okc:
-        chk.ok(R1, goc.qualname, norm(lp.target), detail='every triplet stored under its own key; bytes = stream.read(), None only for the missing marker')
-    else:
-        chk.bad(R1, goc.qualname, norm(lp.target), 'get_objects_content does not store exactly one entry per yielded key with the whole content of its stream', where=f'{goc.module.relpath}:{lp.lineno}')
-
     # ================================================================ R2 (funnel partition)
     for ws in (True, False):
         g = ctx.icfg(FUNNEL, {'with_streams': ws, 'skip_if_missing': False}, funnel_policy(), key='funnel')
-        m = FunnelMachine(ctx, g, 'C02.R2')
+        m = FunnelMachine(ctx, g, rule_id)
         viols, st = solve(g, m)
         chk.crash_points += st['pairs']
         chk.specialisations += 1
@@ -594,6 +500,111 @@ def run(ctx, host=None):
             chk.bad(R2, FUNNEL, f'retry lookup over {sorted(used)}', 'the retry query is not keyed by exactly the keys whose loose probe failed', where=f'{fn.module.relpath}:{second_if[0].lineno}')
     else:
         chk.bad(R2, FUNNEL, 'retry lookup', 'retry lookup (two-strategy query after the loose pass) not found', where=f'{fn.module.relpath}:{LL.lineno}')
+
+
+
+def run(ctx, host=None):
+    chk = host.sub('C02') if host is not None else Check('C02', ctx)
+    prog, K, E = ctx.prog, ctx.kinds, ctx.effects
+    R1 = chk.rule('C02.R1', 'every public key view answers through the single read funnel; negative answers come from its MISSING outcome only', 9)
+    R2 = chk.rule('C02.R2', 'funnel partitions the request: index -> loose (not found in index) -> refreshed index (loose probe failed) -> MISSING (still not found)', 6)
+    R3 = chk.rule('C02.R3', 'listing and counts are unions of the two stores: every index row, plus loose files not in the index', 5)
+    R4 = chk.rule('C02.R4', 'closed-world destruction table: every unlink/rename/replace/link/rmtree/DELETE/UPDATE/truncate site has a tabled owner, area and key provenance', 20)
+    R5 = chk.rule('C02.R5', 'init_container refuses to overwrite: both raising tests dominate the first write; rmtree only under clear; caches and sessions reset', 4)
+    R6 = chk.rule('C02.R6', 'maintenance keeps keys: repack stages every row with its own id/hashkey/size; loosen_object re-adds through the loose writer and compares the key', 4)
+    S = Summaries(ctx)
+    cont = K.container
+    funnel = prog.fn(FUNNEL)
+
+    key_views = key_views_funnel_only(ctx, chk, R1, S)
+    # negative answers: NotExistent / False / None derive from the MISSING outcome
+    def calls_to(f, method):
+        return [c for c in _calls_in(f) if isinstance(c.func, ast.Attribute) and c.func.attr == method]
+
+    # (a) single-object views pass skip_if_missing=False and raise NotExistent exactly on the missing marker
+    for vname, inner, marker in (('get_object_stream_and_meta', 'get_objects_stream_and_meta', 'stream'), ('get_object_meta', 'get_objects_meta', 'meta')):
+        f = cont.methods.get(vname)
+        chk.require(f is not None, f'Container.{vname} not found')
+        cs = calls_to(f, inner)
+        chk.require(len(cs) == 1, f'{vname}: expected one call of {inner}')
+        sk = _kwarg(cs[0], 'skip_if_missing', 1)
+        raises = [n for n in walk_local(f.node) if isinstance(n, ast.Raise) and n.exc is not None and 'NotExistent' in norm(n.exc)]
+        okv = isinstance(sk, ast.Constant) and sk.value is False and bool(raises)
+        msg = None
+        if not (isinstance(sk, ast.Constant) and sk.value is False):
+            msg = 'the bulk reader is not asked to report missing keys (skip_if_missing is not the constant False): a missing object would produce no answer instead of NotExistent'
+        elif not raises:
+            msg = 'NotExistent is never raised'
+        else:
+            # the raise must be guarded by a test of the missing marker of the funnel (stream is None / type MISSING)
+            guarded = False
+            for n in walk_local(f.node):
+                if isinstance(n, ast.If):
+                    t = norm(n.test)
+                    in_body = any(r in list(ast.walk(n)) for r in raises)
+                    if ('is None' in t and in_body and any(r in [y for s in n.body for y in ast.walk(s)] for r in raises)) or \
+                            ('MISSING' in t and ((('!=' in t) and any(isinstance(y, ast.Return) for s in n.body for y in ast.walk(s))) or
+                                                 (('==' in t) and any(r in [y for s in n.body for y in ast.walk(s)] for r in raises)))):
+                        guarded = True
+            if not guarded:
+                msg = 'NotExistent is not decided by the funnel\'s missing marker (None stream / ObjectType.MISSING)'
+        if msg:
+            chk.bad(R1, f.qualname, norm(cs[0])[:120], msg, where=f'{f.module.relpath}:{cs[0].lineno}')
+        else:
+            chk.ok(R1, f.qualname, norm(cs[0])[:120], detail='skip_if_missing=False; NotExistent iff the funnel reports the key missing')
+    # (b) has_objects: only existing keys enter the answer set
+    ho = cont.methods.get('has_objects')
+    chk.require(ho is not None, 'Container.has_objects not found')
+    cs = calls_to(ho, 'get_objects_meta') + calls_to(ho, 'get_objects_stream_and_meta') + calls_to(ho, '_get_objects_stream_meta_generator')
+    chk.require(len(cs) == 1, 'has_objects: expected one bulk lookup call')
+    sk = _kwarg(cs[0], 'skip_if_missing', 1)
+    hk = _kwarg(cs[0], 'hashkeys', 0)
+    if isinstance(sk, ast.Constant) and sk.value is True or (sk is None):
+        okh = True
+    else:
+        okh = any('MISSING' in norm(n.test) for n in walk_local(ho.node) if isinstance(n, ast.If))
+    if okh and isinstance(hk, ast.Name) and hk.id in ho.params:
+        chk.ok(R1, ho.qualname, norm(cs[0])[:120], detail='existence = the funnel yields the key as LOOSE/PACKED (missing keys skipped)')
+    else:
+        chk.bad(R1, ho.qualname, norm(cs[0])[:120], 'has_objects would count keys the funnel reports as MISSING as existing (skip_if_missing is not True and the type is not tested), '
+                'or does not look up the requested keys', where=f'{ho.module.relpath}:{cs[0].lineno}')
+    # (c) bulk views forward the caller's skip_if_missing and key list unchanged
+    for vname in ('get_objects_stream_and_meta', 'get_objects_meta', 'get_objects_content'):
+        f = cont.methods.get(vname)
+        chk.require(f is not None, f'Container.{vname} not found')
+        cs = [c for c in _calls_in(f) if isinstance(c.func, ast.Attribute) and c.func.attr in ('_get_objects_stream_meta_generator', 'get_objects_stream_and_meta', 'get_objects_meta')]
+        chk.require(len(cs) == 1, f'{vname}: expected one call into the funnel')
+        sk, hk = _kwarg(cs[0], 'skip_if_missing', 1), _kwarg(cs[0], 'hashkeys', 0)
+        if isinstance(sk, ast.Name) and sk.id == 'skip_if_missing' and isinstance(hk, ast.Name) and hk.id == 'hashkeys':
+            chk.ok(R1, f.qualname, norm(cs[0])[:120], detail='request and skip_if_missing forwarded unchanged', nontrivial=False)
+        else:
+            chk.bad(R1, f.qualname, norm(cs[0])[:120], 'the bulk view does not forward the caller\'s key list / skip_if_missing unchanged to the funnel', where=f'{f.module.relpath}:{cs[0].lineno}')
+    # get_objects_content: every yielded key is stored, value = stream.read() or None for the missing marker
+    goc = cont.methods['get_objects_content']
+    loops = [l for l in _for_loops(goc) if isinstance(l.target, ast.Tuple) and len(l.target.elts) == 3]
+    chk.require(len(loops) == 1, 'get_objects_content: triplet loop not found')
+    lp = loops[0]
+    kname = lp.target.elts[0].id if isinstance(lp.target.elts[0], ast.Name) else None
+    sname = lp.target.elts[1].id if isinstance(lp.target.elts[1], ast.Name) else None
+    okc = True
+    for path in body_paths(lp.body):
+        stores = [s for s in path if isinstance(s, ast.Assign) and isinstance(s.targets[0], ast.Subscript) and norm(s.targets[0].slice) == kname]
+        if len(stores) != 1:
+            okc = False
+            continue
+        v = norm(stores[0].value)
+        tests = [(norm(t[1]), t[2]) for t in path if isinstance(t, tuple)]
+        none_path = any((tx == f'{sname} is None' and pol) or (tx == f'{sname} is not None' and not pol) for tx, pol in tests)
+        if none_path and v != 'None':
+            okc = False
+        if not none_path and v != f'{sname}.read()':
+            okc = False
+    if okc:
+        chk.ok(R1, goc.qualname, norm(lp.target), detail='every triplet stored under its own key; bytes = stream.read(), None only for the missing marker')
+    else:
+        chk.bad(R1, goc.qualname, norm(lp.target), 'get_objects_content does not store exactly one entry per yielded key with the whole content of its stream', where=f'{goc.module.relpath}:{lp.lineno}')
+
+    funnel_partition(ctx, chk, R2)
 
     # ================================================================ R3 (listing / counts)
     la = cont.methods.get('list_all_objects')
